@@ -97,7 +97,11 @@ func checkC06(h *History) *Outcome {
 			o.Msg = ctx + ": " + o.Msg
 			return o
 		}
-		pf, o := validateFile("C06", f.Root, file, sizes, h.PageSize, h.Codec)
+		eff := h.PageSize
+		if eff <= 0 {
+			eff = 1000
+		}
+		pf, o := validateFile("C06", f.Root, file, sizes, eff, h.Codec)
 		if o != nil {
 			return tag(o)
 		}
@@ -138,6 +142,10 @@ func (h *History) labels() (l []string, nontrivial bool) {
 	if pending > 0 {
 		l = append(l, "pending-at-close")
 		nontrivial = true
+	}
+	if h.PageSize <= 0 {
+		l = append(l, "default-page-size")
+		return l, true
 	}
 	for _, b := range batches {
 		if len(b)%h.PageSize == 0 {
@@ -229,16 +237,21 @@ func TestC06(t *testing.T) {
 		h.Codec = rapid.IntRange(0, 2).Draw(t, "codec")
 		h.PageSize = rapid.IntRange(1, 16).Draw(t, "pageSize")
 		nops := rapid.IntRange(0, 24).Draw(t, "nops")
+		eff := h.PageSize
+		if b := rapid.IntRange(0, 99).Draw(t, "defaultPage?"); b >= 50 && b < 53 && h.Fixture == "tiny" {
+			// do not pass MaxPageSize at all: the documented default of 1000 records per page applies
+			h.PageSize, eff, nops = 0, 1000, rapid.IntRange(1, 5).Draw(t, "nopsBig")
+		}
 		gen := vt.DefaultGen
 		gen.MaxList = 3
-		for i := 0; i < nops && len(h.Ops) < 200; i++ {
+		for i := 0; i < nops && len(h.Ops) < 200+5*eff; i++ {
 			switch rapid.IntRange(0, 4).Draw(t, "op") {
 			case 0, 1:
 				h.Ops = append(h.Ops, nil)
 			case 2:
 				h.Ops = append(h.Ops, vt.GenRecord(t, f.Root, gen))
 			default:
-				k := rapid.SampledFrom([]int{1, 2, h.PageSize - 1, h.PageSize, h.PageSize + 1, 2 * h.PageSize, 2*h.PageSize + 1}).Draw(t, "addMany")
+				k := rapid.SampledFrom([]int{1, 2, eff - 1, eff, eff + 1, 2 * eff, 2*eff + 1}).Draw(t, "addMany")
 				for j := 0; j < k; j++ {
 					h.Ops = append(h.Ops, vt.GenRecord(t, f.Root, gen))
 				}
